@@ -6,10 +6,10 @@ PLAN = dict(
          "random walks over {Write, Sum, Reset, MarshalBinary->UnmarshalBinary, refused imports, AppendBinary behind a non-empty prefix, the KDF method of the running object, Size} on one hash object, the digest compared with "
          "the reference after every step (twice: Sum must not disturb the state); kdf: grid len(z) 0..200 x 17 key lengths (thorough: len(z) 0..330 x every key length 1..545 and four long ones) x four "
          "entry points (sm3.Kdf, kdf.Kdf fast path, kdf.Kdf generic with and without state export) plus seeded random pairs and the "
-         "prefix law; all inputs in guard-page buffers. Non-trivial = not the empty message; distinct = distinct class keys "
+         "prefix law, and outputs long enough for the second and third byte of the block counter (8160 bytes .. 2 MiB + 261); bigstate: the exported state of a short prefix gets its byte counter raised by 2^29 .. 2^60 (a multiple of 64), is imported into a fresh object and continued - digest and re-exported counter must equal the reference continued from the same chaining value (reaches the high bits of the bit-length field); all inputs in guard-page buffers. Non-trivial = not the empty message; distinct = distinct class keys "
          "(configuration | workload / len mod 64 / block-count class / output-block class with lane remainder / guard side)",
     jobs=both("c01.sum", _CFG, shards=(2, 8), floor=100) + both("c01.history", _CFG, shards=(2, 8), floor=100)
-    + both("c01.kdf", _CFG, shards=(2, 16), floor=100),
+    + both("c01.kdf", _CFG, shards=(2, 16), floor=100) + both("c01.bigstate", _CFG, shards=(1, 2), floor=100),
     assumptions=["reference SM3 in harness/ref/sm3 (validated against the GB/T 32905 examples at every child start)"],
 )
 
